@@ -143,7 +143,8 @@ def check_outputs(ctx, root, pkgdir, home, what, sig_suffix, args=(), cpp=True, 
             w = mut.PyWorker(py_dir, ents[0], os.path.join(root, "pyio"))
             ctx.ev()
             if not w.hello.get("ready"):
-                cls = ":ndarray-of-fixed-vector-annotation" if "Too many arguments for numpy.ndarray" in str(w.hello.get("error")) else ""
+                from vlib.rt import py_import_errclass
+                cls = py_import_errclass(w.hello.get("error"))
                 ctx.violation("python-import-failed:%s%s" % (sig_suffix, cls), "%s: generated Python package does not import: %s" % (what, w.hello.get("error")), {"case_dir": root, "tb": w.hello.get("tb")})
                 bad = True
             else:
